@@ -151,11 +151,14 @@ pub(crate) fn join(mut args: ArgumentResult, visitor: &mut Visitor) -> SassResul
     args.max_args(4)?;
     let (mut list1, sep1, brackets) = match args.get_err(0, "list1")? {
         Value::List(v, sep, brackets) => (v, sep, brackets),
+        // an empty map is an empty list: it has no separator of its own
+        Value::Map(m) if m.is_empty() => (Vec::new(), ListSeparator::Undecided, Brackets::None),
         Value::Map(m) => (m.as_list(), ListSeparator::Comma, Brackets::None),
         v => (vec![v], ListSeparator::Undecided, Brackets::None),
     };
     let (list2, sep2) = match args.get_err(1, "list2")? {
         Value::List(v, sep, ..) => (v, sep),
+        Value::Map(m) if m.is_empty() => (Vec::new(), ListSeparator::Undecided),
         Value::Map(m) => (m.as_list(), ListSeparator::Comma),
         v => (vec![v], ListSeparator::Undecided),
     };
